@@ -96,7 +96,9 @@ class Runner:
             # the real interpreter ran out of its step budget although the model finishes the same program well inside it:
             # a divergence (e.g. a loop that no longer terminates), not an inconclusive case
             lim = dict(core.DEFAULT_BUDGET, **c.budget)["steps"]
-            if c.mode == "file" and r.budget_hit and m is not None and not m.inconclusive and not m.crash and 0 <= m.steps < lim // 4:
+            # (not for programs whose control flow depends on RAND / the clock: their two runs are not comparable)
+            nondet = tuple(c.meta.get("compare", what)) == () or re.search(rb"RAND|TODAY|TIME|HOURS|MINUTES|SECONDS", c.prog or b"") is not None
+            if c.mode == "file" and r.budget_hit and not nondet and m is not None and not m.inconclusive and not m.crash and 0 <= m.steps < lim // 4:
                 self.stats["disagreements"] += 1; g["disagreements"] += 1
                 self.report(c, b, r, m, [("termination", "real interpreter exhausted the step budget (%d)" % lim, "model finished after %d steps" % m.steps)], [])
                 return
